@@ -49,9 +49,10 @@ type simNode struct {
 	mu       sync.Mutex
 	admitted []dag.Transaction // observed through a dag.Notifier since the last drain
 
-	led     *dagx.Ledger    // what the monitor knows the node holds
-	xor     hash.SHA256Hash // running XOR over led
-	listing map[hash.SHA256Hash]bool
+	led       *dagx.Ledger    // what the monitor knows the node holds
+	xor       hash.SHA256Hash // running XOR over led
+	listing   map[hash.SHA256Hash]bool
+	validHeld int // how many of the generated valid transactions the node holds
 }
 
 func peerOf(i int) transport.Peer {
@@ -171,11 +172,17 @@ type sim struct {
 	newTxs   int
 	offered  map[hash.SHA256Hash]bool // tampered transactions that were delivered to a node inside a TransactionList
 	violated bool
+	traceCut int
+	maxRound int // most steps any fair round needed
 }
 
 func (s *sim) stat(k string, d int) { s.stats[k] += d }
 
 func (s *sim) tracef(format string, args ...any) {
+	if len(s.trace) > 6000 { // keep the head and the recent part
+		s.traceCut += 2000
+		s.trace = append(s.trace[:1000:1000], s.trace[3000:]...)
+	}
 	s.trace = append(s.trace, fmt.Sprintf("%s%d ", s.phase[:1], s.step)+fmt.Sprintf(format, args...))
 }
 
@@ -190,7 +197,7 @@ func (s *sim) witness(extra map[string]any) map[string]any {
 		nodes = append(nodes, map[string]any{"node": n.name, "transactions": n.led.Len(), "xor": x.String(), "lc": lc, "neighbours": n.nbrs})
 	}
 	wit := map[string]any{"scenario": s.sc.idx, "class": s.sc.class, "nodes": s.sc.n, "topology": s.sc.topo, "rand_stream": s.sc.stream(),
-		"union": len(s.w.valid), "steps": s.step, "phase": s.phase, "trace_tail": tail, "trace_len": len(s.trace), "node_state": nodes, "stats": s.stats,
+		"union": len(s.w.valid), "steps": s.step, "phase": s.phase, "trace_tail": tail, "trace_len": len(s.trace) + s.traceCut, "node_state": nodes, "stats": s.stats,
 		"replay": "the scenario (DAGs, topology, adversary choices) is a pure function of (VERIF_SEED, tier, scenario index); trace lines: <phase><step> <action> #<msg> <type> <from>><to>"}
 	for k, v := range extra {
 		wit[k] = v
@@ -292,11 +299,19 @@ func (s *sim) deliver(m *wmsg, how string) {
 		s.stat("handler_refusals/"+m.typ+"/"+shortErr(herr), 1)
 		s.trace[len(s.trace)-1] += " -> " + shortErr(herr)
 	}
-	s.history = append(s.history, m)
-	if len(s.history) > 600 {
-		s.history = s.history[len(s.history)-400:]
-	}
+	s.remember(m)
 	s.check()
+}
+
+// remember keeps a delivered or dropped message for later stale/unsolicited re-injection (fault phase only; large lists are not kept).
+func (s *sim) remember(m *wmsg) {
+	if s.phase != "fault" || len(m.wire) > 128<<10 {
+		return
+	}
+	s.history = append(s.history, m)
+	if len(s.history) > 400 {
+		s.history = s.history[len(s.history)-300:]
+	}
 }
 
 func shortErr(err error) string {
@@ -394,6 +409,7 @@ func (s *sim) absorb(n *simNode) {
 			s.violation("C07/safety/invalid-admitted/"+kind, fmt.Sprintf("node %s admitted transaction %s which is not one of the generated valid transactions (%s)", n.name, ref, kind),
 				map[string]any{"transaction": ref.String(), "kind": kind})
 		} else {
+			n.validHeld++
 			// causal completeness as the generator knows it: every prev must be held already
 			for _, p := range g.tx.Previous() {
 				if !n.led.Has(p) {
@@ -424,6 +440,9 @@ func (s *sim) relist(n *simNode, why string) {
 					kind = e.kind
 				}
 				s.violation("C07/safety/invalid-admitted/"+kind, fmt.Sprintf("node %s lists transaction %s which is not one of the generated valid transactions (%s)", n.name, tx.Ref(), kind), nil)
+			}
+			if kind == "valid" {
+				n.validHeld++
 			}
 			s.stat("admissions_seen_only_in_listing", 1)
 			n.led.Add(tx.Ref(), tx.Clock())
@@ -467,7 +486,7 @@ func (s *sim) unionXor() hash.SHA256Hash {
 
 func (s *sim) converged() bool {
 	for _, n := range s.nodes {
-		if n.led.Len() != len(s.w.valid) {
+		if n.validHeld != len(s.w.valid) {
 			return false
 		}
 	}
@@ -526,15 +545,7 @@ func (s *sim) faultStep() {
 	}
 	switch action {
 	case 0:
-		i := s.rnd.Intn(nIn)
-		m := s.inflight[i]
-		for _, o := range s.inflight[:i] {
-			if o.from == m.from && o.to == m.to {
-				s.stat("reordered_deliveries", 1)
-				break
-			}
-		}
-		s.deliver(s.take(i), "deliver")
+		s.deliverAny()
 	case 1:
 		s.deliver(s.take(0), "deliver-oldest")
 	case 2:
@@ -549,7 +560,7 @@ func (s *sim) faultStep() {
 		s.stat("dropped/"+m.typ, 1)
 		s.stat("dropped", 1)
 		s.tracef("drop #%d %s %d>%d", m.seq, m.typ, m.from, m.to)
-		s.history = append(s.history, m)
+		s.remember(m)
 	case 4:
 		m := s.inflight[s.rnd.Intn(nIn)]
 		s.seq++
@@ -593,14 +604,26 @@ func (s *sim) faultStep() {
 		}
 	case 9:
 		if s.newTxs < s.sc.newTx {
-			s.createTx()
+			s.createTx(s.nodes[s.rnd.Intn(len(s.nodes))])
 		}
 	}
 }
 
+// deliverAny delivers a seeded choice among everything in flight; overtaking an older message on the same link counts as a reordering.
+func (s *sim) deliverAny() {
+	i := s.rnd.Intn(len(s.inflight))
+	m := s.inflight[i]
+	for _, o := range s.inflight[:i] {
+		if o.from == m.from && o.to == m.to && o.seq < m.seq {
+			s.stat("reordered_deliveries", 1)
+			break
+		}
+	}
+	s.deliver(s.take(i), "deliver")
+}
+
 // createTx lets a node's own application create a transaction on top of what that node holds (goes through State.Add, as production does).
-func (s *sim) createTx() {
-	n := s.nodes[s.rnd.Intn(len(s.nodes))]
+func (s *sim) createTx(n *simNode) {
 	head := n.led.Order[0]
 	for _, ref := range n.led.Order {
 		if n.led.Clock[ref] > n.led.Clock[head] {
@@ -794,17 +817,19 @@ func (s *sim) fairRound(round int) (capHit bool) {
 		s.step++
 		s.tick(i, s.nodes[i].nbrs)
 	}
-	stepCap := 4000 + 400*len(s.nodes)*s.sc.pages()
+	stepCap := s.sc.roundStepCap()
 	n := 0
 	for len(s.inflight) > 0 {
 		s.step++
 		n++
 		if n > stepCap {
 			s.stat("fair_round_step_cap_hit", 1)
+			s.maxRound = max(s.maxRound, n)
 			return true
 		}
-		s.deliver(s.take(s.rnd.Intn(len(s.inflight))), "deliver")
+		s.deliverAny()
 	}
+	s.maxRound = max(s.maxRound, n)
 	return false
 }
 
